@@ -57,7 +57,7 @@ def caller_context_and_switch_off(script: List[int], vals: List[int], how: int, 
     """
     pre: len(script) <= _ltail() and all(s in B('OPS') for s in script)
     pre: len(vals) == 8 and 0 <= how <= 2 and -1 <= where < B('L')
-    pre: caller in B('CALLERS') and disable_at in B('DISABLE')
+    pre: caller in B('CALLERS') and disable_at in B('DISABLE') and class_level in B('CLS')
     post: _
     """
     # the operation is called while its caller is handling an exception; recording is switched off mid-operation
@@ -150,9 +150,9 @@ _QOPS = [_o('A', 1), _o('O', 1)]
 _TOPS = [_o('A', 1), _o('H'), _o('N'), _o('O', 1), _o('U'), _o('T')]
 _W = {'first': _o('A', 1), 'how': 2}
 _QA = {'L': 2, 'OPS': _QOPS, 'EXTRACTORS': [0, 1, 2, 3, 5], 'CALLERS': [0], 'DISABLE': [-1]}
-_QB = {'L': 2, 'OPS': _QOPS, 'EXTRACTORS': [0], 'CALLERS': [0, 1, 2], 'DISABLE': [-1, 0, 1]}
+_QB = {'L': 2, 'OPS': _QOPS, 'EXTRACTORS': [0], 'CALLERS': [0, 1, 2], 'DISABLE': [-1, 0, 1], 'CLS': [False]}
 _TA = {'L': 3, 'OPS': _TOPS, 'EXTRACTORS': [0, 1, 2, 3, 4, 5, 6], 'CALLERS': [0, 1], 'DISABLE': [-1, 1]}
-_TB = {'L': 3, 'OPS': _TOPS, 'EXTRACTORS': [0], 'CALLERS': [0, 1, 2], 'DISABLE': [-1, 0, 1, 2]}
+_TB = {'L': 3, 'OPS': _TOPS, 'EXTRACTORS': [0], 'CALLERS': [0, 1, 2], 'DISABLE': [-1, 0, 1, 2], 'CLS': [False, True]}
 CONDITIONS = [
     {'fn': 'metadata_truth', 'nontrivial': 'interrupted-midway',
      'what': 'every metadata key vs the documented meaning, for every termination mode/point, extractor behaviour and '
